@@ -4,6 +4,8 @@ import (
 	"strings"
 	"time"
 
+	"github.com/tyler-sommer/stick/twig"
+
 	"verif/core"
 )
 
@@ -20,6 +22,8 @@ var c01Frags = []string{
 	"embed", "filter", "macro", "and", "\\", "\x00", "\ufeff",
 	// whole broken tags: a tag that starts well and ends in something the lexer rejects
 	"{% set q = 'u", "{% if ; %}", "{% import (", "{% do 1 $ %}",
+	// pieces of number literals in other notations (an input may end in the middle of one)
+	"e", "E", "1e5", "0x", "_",
 }
 
 var c01Core = []string{"{{", "{%", "{#", "a", "1", ".", "\"", "-", " ", "%}", "}}", "(", "\\", "'"}
@@ -111,6 +115,11 @@ func c01Levels(tier string) []core.Level {
 		n1, n2 = 4, 7
 	}
 	var lv []core.Level
+	lv = append(lv, core.Level{Name: "the empty source and sources that are a template name's worth of odd characters ('', '/', 'a/', '.', '..')", Gen: func(emit func(core.Case)) {
+		for _, s := range []string{"", "/", "a/", ".", "..", "\\", " ", "a.", ".html"} {
+			emit(core.Case{Fam: "str", Src: s})
+		}
+	}})
 	for n := 1; n <= n1; n++ {
 		n := n
 		lv = append(lv, core.Level{Name: "fragments^" + itoa(n), Gen: func(emit func(core.Case)) { genStrings(c01Frags, n, "str", emit) }})
@@ -258,6 +267,14 @@ func c01Run(c core.Case) core.Result {
 	}
 	if (err == nil) != (err2 == nil) {
 		return core.Violation("verdict-differs", "parse.Parse and Env.Parse disagree on "+q(c.Src)+": "+errStr(err)+" vs "+errStr(err2))
+	}
+	// ... and as an inline template of a Twig environment (the default StringLoader: the source is its own name)
+	_, err3, pan3 := tryEnvParse(twig.New(nil), c.Src)
+	if pan3 != "" {
+		return core.Violation("panic", "twig.New(nil).Parse("+q(c.Src)+") panicked: "+pan3)
+	}
+	if (err == nil) != (err3 == nil) {
+		return core.Violation("verdict-differs", "parse.Parse and Parse of the inline template disagree on "+q(c.Src)+": "+errStr(err)+" vs "+errStr(err3))
 	}
 	out := "ok"
 	if err != nil {
